@@ -15,27 +15,39 @@ import (
 // direct I/O (poll emulation: see sc_poll.go).
 
 type c05conn struct {
-	f     *fixture
-	done  chan *rpc.Call
-	calls []*rpc.Call
-	tags  []byte
-	order []byte
+	f       *fixture
+	done    chan *rpc.Call
+	calls   []*rpc.Call
+	tags    []byte
+	order   []byte
+	unknown []byte // tags of calls that name an unknown method (never executed)
 }
 
-func c05Issue(f *fixture, base byte, n int) *c05conn {
+func c05Issue(f *fixture, base byte, n int) *c05conn { return c05IssueU(f, base, n, -1) }
+
+// c05IssueU: the call at position unknown (if >= 0) names a method that does not exist.
+func c05IssueU(f *fixture, base byte, n int, unknown int) *c05conn {
 	c := &c05conn{f: f, done: make(chan *rpc.Call, 16)}
 	sizes := []int{40, 300, 3, 90, 64}
 	for i := 0; i < n; i++ {
 		tag := base + byte(i)
 		flags := byte(fYield)
-		if i%2 == 1 {
+		method := "Svc.Echo"
+		if i == unknown {
+			method = "Svc.Nope"
+			f.w.errText[tag] = "can't find service Svc.Nope"
+			flags |= fErr
+		} else if i%2 == 1 {
 			flags |= fErr
 			f.w.errText[tag] = fmt.Sprintf("fail-%d", tag)
 		}
 		args := mkPayload(tag, flags, sizes[i%len(sizes)])
 		var reply []byte
-		c.calls = append(c.calls, f.conn.Go("Svc.Echo", &args, &reply, c.done))
+		c.calls = append(c.calls, f.conn.Go(method, &args, &reply, c.done))
 		c.tags = append(c.tags, tag)
+		if i == unknown {
+			c.unknown = append(c.unknown, tag)
+		}
 	}
 	return c
 }
@@ -76,7 +88,19 @@ func c05Judge(x *X, c *c05conn, w *World, clientPipe bool, label string) string 
 			}
 		}
 	}
-	if fmt.Sprint(mine) != fmt.Sprint(c.tags) {
+	var exec []byte
+	for _, t := range c.tags {
+		skip := false
+		for _, u := range c.unknown {
+			if u == t {
+				skip = true
+			}
+		}
+		if !skip {
+			exec = append(exec, t)
+		}
+	}
+	if fmt.Sprint(mine) != fmt.Sprint(exec) {
 		x.Fail("C05/execution-order/"+label, "handlers of one connection started in order %v, requests were sent in order %v", mine, c.tags)
 	}
 	req := wireSeqs(wireEncoder(c.f.so.enc), c.f.cl.Wire(), 0)
@@ -103,21 +127,25 @@ func c05Judge(x *X, c *c05conn, w *World, clientPipe bool, label string) string 
 	return fmt.Sprintf("%s exec=%v wire=%v done=%v", label, mine, res, c.order)
 }
 
-func c05Body(n int) func(x *X) {
+func c05Body(n int) func(x *X) { return c05BodyM(n, sysModes[:1]) }
+
+func c05BodyM(n int, modes []sysMode) func(x *X) {
 	return func(x *X) {
+		mode := modes[x.Choose(len(modes))]
 		clientPipe := x.Choose(2) == 1
 		directIO := x.Choose(2) == 1
+		unknown := x.Choose(n+1) - 1 // position of a call to an unknown method (-1: none)
 		so := srvOpts{bufSize: 64, pipelining: true, directIO: directIO}
-		f := newFixture(so, cliOpts{bufSize: 64, pipelining: clientPipe})
-		c := c05Issue(f, 1, n)
+		s := newSys(mode, so, cliOpts{bufSize: 64, pipelining: clientPipe})
+		f := &fixture{w: s.w, cl: s.cl, srv: s.srv, conn: s.conn, so: so}
+		c := c05IssueU(f, 1, n, unknown)
 		vs.Quiesce()
 		out := c05Judge(x, c, f.w, clientPipe, "single")
 		if f.w.overlap > 0 {
 			x.Fail("C05/overlap", "%d handler executions of one pipelined connection overlapped", f.w.overlap)
 		}
-		x.Outcome("cp=%v dio=%v %s overlap=%d", clientPipe, directIO, out, f.w.overlap)
-		f.conn.Close()
-		vs.Quiesce()
+		x.Outcome("%s cp=%v dio=%v unk=%d %s overlap=%d", mode.name, clientPipe, directIO, unknown, out, f.w.overlap)
+		s.finish()
 	}
 }
 
@@ -226,6 +254,7 @@ func c05Disconnect(modes []c04Mode) func(x *X) {
 func init() {
 	register(&Scenario{Prop: "C05", Name: "c05/burst-then-disconnect", Quick: []Bound{{1, 0}, {2, 0}}, Thorough: []Bound{{3, 0}}, Body: c05Disconnect(c08SrvModes)})
 	register(&Scenario{Prop: "C05", Name: "c05/3calls", Quick: []Bound{{1, 0}, {2, 0}}, Thorough: []Bound{{3, 0}}, Body: c05Body(3)})
+	register(&Scenario{Prop: "C05", Name: "c05/3calls-poll", Quick: []Bound{{1, 0}, {2, 0}}, Thorough: []Bound{{3, 0}}, Body: c05BodyM(3, sysModes[2:]), BudgetQ: 25})
 	register(&Scenario{Prop: "C05", Name: "c05/4calls", Quick: []Bound{{1, 0}}, Thorough: []Bound{{2, 0}, {3, 0}}, Body: c05Body(4)})
 	register(&Scenario{Prop: "C05", Name: "c05/two-conns", Quick: []Bound{{1, 0}}, Thorough: []Bound{{2, 0}}, Body: c05TwoConns})
 }
